@@ -5,7 +5,7 @@ RULE = ("MSS boundary values + uniform, both IP versions, MTU 41..65535, base op
         "several other options), bare or under Ethernet / 802.1Q / Linux cooked link layers, both as sniffed (dissected from bytes, explicit fields) and as constructed Scapy packets, all flag "
         "types incl. invalid and fragments, MTU databases with duplicates and misses; non-trivial = fingerprint accepted the packet; "
         "the impersonated packet is re-fingerprinted and all non-option fields compared")
-GEN_TIE = ['mtu']     # gates, from_mss and mtu_signatures_match are also TRANSLATED from /repo's source on every run and proved equal to the model
+GEN_TIE = ['mtu']     # gates, from_mss, mtu_signatures_match, find_mtu_match and impersonate/mtu.py's option-list rewrite are also TRANSLATED from /repo's source on every run and proved equal to the model
 ASSUMPTIONS = ["(fragment, type, version, MSS) given to the fingerprint model come from the model's own extractor applied to the IP datagram bytes of the base packet "
                "(as Scapy serialises it); packets Scapy cannot dissect (KF-scapy-ao) are skipped"]
 EXHAUSTIVE = {"MSS 1..2000 x both versions through fingerprint_mtu (thorough: 1..65535)": True}
